@@ -624,7 +624,11 @@ impl Composite for Coerce {
             Self::NoOp(x) => Ok(Self::NoOp(x)),
             Self::IntoAssets(x) => Ok(Self::NoOp(x.into_assets()?)),
             Self::IntoDatum(x) => Ok(Self::NoOp(x.into_datum()?)),
-            Self::IntoScript(x) => todo!(),
+            // nothing produces this coercion yet; an IR that carries it cannot be reduced
+            Self::IntoScript(x) => Err(Error::InvalidUnaryOp(
+                "into_script".to_string(),
+                format!("{x:?}"),
+            )),
         }
     }
 }
